@@ -78,11 +78,26 @@ def resDType (op : BinOp) (x y : DType) : DType :=
   else DType.promote x y
 end BinOp
 
-/-- `result.dtype in (...)` test of `_wrap_numpy` (table extracted from array.py) -/
-def dtypeKeepsUnit (d : DType) : Bool := Generated.keepsUnit d.toString
+/-- The two tables of array.py that decide which unit a numpy result carries. -/
+structure Tables where
+  /-- the `result.dtype in (...)` test of `_wrap_numpy` -/
+  keeps : DType → Bool
+  /-- `func.__name__ in APPLY_OP_TO_UNIT` -/
+  applyOp : String → Bool
 
-/-- `func.__name__ in APPLY_OP_TO_UNIT` (tuple extracted from array.py) -/
-def applyOpToUnit (name : String) : Bool := Generated.applyOpToUnit.contains name
+instance : Inhabited Tables := ⟨⟨fun _ => false, fun _ => false⟩⟩
+
+/-- the tables as extracted from /repo's current array.py (tie (a)) -/
+def Generated.tables : Tables :=
+  { keeps := fun d => Generated.keepsUnit d.toString,
+    applyOp := fun n => Generated.applyOpToUnit.contains n }
+
+/-- reference tables used by the Spec oracle: every numeric dtype keeps its unit, and the
+    transforming functions of the C10 catalogue transform it -/
+def Reference.tables : Tables :=
+  { keeps := fun d => d != .b,
+    applyOp := fun n => ["multiply", "true_divide", "divide", "sqrt", "power", "reciprocal",
+                         "square", "cbrt"].contains n }
 
 /-- unit that `func(*units)` yields for the binary ufuncs that may appear in the tuple -/
 def BinOp.derivedUnit (op : BinOp) (ua ub : U) : U :=
@@ -93,7 +108,7 @@ def BinOp.derivedUnit (op : BinOp) (ua ub : U) : U :=
 
 /-- `Array.to(unit)` on values (`same` = the identity shortcut was taken). -/
 def ArrV.to (a : ArrV) (u : U) : Res (ArrV × Bool) :=
-  if a.unit == u then .ok (a, true)
+  if a.unit.same u then .ok (a, true)
   else if !a.unit.convertible u then .error .dimErr
   else
     let r := U.ratio a.unit u
@@ -103,30 +118,30 @@ def ArrV.to (a : ArrV) (u : U) : Res (ArrV × Bool) :=
 
 /-- `_wrap_numpy` unit rule for a binary ufunc called as `func(lhs, rhs)`;
     `selfUnit` is the unit of the Array that received the protocol call. -/
-def wrapUnit (name : String) (resDt : DType) (selfUnit derived : U) : U :=
-  if dtypeKeepsUnit resDt then
-    (if applyOpToUnit name then derived else selfUnit)
+def wrapUnit (T : Tables) (name : String) (resDt : DType) (selfUnit derived : U) : U :=
+  if T.keeps resDt then
+    (if T.applyOp name then derived else selfUnit)
   else U.one
 
 /-- numpy part of a binary op on two Arrays whose units have been settled -/
-def ArrV.applyBin (op : BinOp) (lhs rhs : ArrV) : Res ArrV :=
+def ArrV.applyBin (T : Tables) (op : BinOp) (lhs rhs : ArrV) : Res ArrV :=
   match bshape lhs.shape rhs.shape with
   | none => .error .valueErr
   | some out =>
     let dt := op.resDType lhs.dtype rhs.dtype
     let data := bmap2 op.fn out lhs.shape rhs.shape lhs.data rhs.data
-    let unit := wrapUnit op.npName dt lhs.unit (op.derivedUnit lhs.unit rhs.unit)
+    let unit := wrapUnit T op.npName dt lhs.unit (op.derivedUnit lhs.unit rhs.unit)
     .ok { shape := out, dtype := dt, data := data, unit := unit, name := "" }
 
 /-- `_binary_op(op, lhs, rhs, strict)` once `rhs` has been coerced to an Array -/
-def ArrV.binaryOp (op : BinOp) (lhs rhs : ArrV) : Res ArrV := do
+def ArrV.binaryOp (T : Tables) (op : BinOp) (lhs rhs : ArrV) : Res ArrV := do
   let rhs' ←
     if op.strict then (do let (r, _) ← rhs.to lhs.unit; pure r)
     else (match rhs.to lhs.unit with
           | .ok (r, _) => pure r
           | .error .dimErr => pure rhs
           | .error e => .error e)
-  ArrV.applyBin op lhs rhs'
+  ArrV.applyBin T op lhs rhs'
 
 /-! ### unary / scalar forms -/
 
@@ -168,20 +183,20 @@ def UnOp.derivedUnit? : UnOp → U → Option U
   | _, u => some u
 
 /-- `np.<unary>(a)` through `_wrap_numpy` -/
-def ArrV.applyUn (op : UnOp) (a : ArrV) : Res ArrV := do
+def ArrV.applyUn (T : Tables) (op : UnOp) (a : ArrV) : Res ArrV := do
   let data ← req (a.data.mapM op.fn?)
   let dt := op.resDType a.dtype
-  let derived ← if applyOpToUnit op.npName then req (op.derivedUnit? a.unit) else pure a.unit
+  let derived ← if T.applyOp op.npName then req (op.derivedUnit? a.unit) else pure a.unit
   pure { shape := a.shape, dtype := dt, data := data,
-         unit := wrapUnit op.npName dt a.unit derived, name := "" }
+         unit := wrapUnit T op.npName dt a.unit derived, name := "" }
 
 /-- `a ** k` = `np.power(a, k)` with a Python integer `k` (weak scalar). -/
-def ArrV.powInt (a : ArrV) (k : Int) : Res ArrV :=
+def ArrV.powInt (T : Tables) (a : ArrV) (k : Int) : Res ArrV :=
   if a.dtype.isInt && k < 0 then .error .valueErr else
   let dt := a.dtype
   let data := a.data.map (· ^ k)
   .ok { shape := a.shape, dtype := dt, data := data,
-        unit := wrapUnit "power" dt a.unit (a.unit.powInt k), name := "" }
+        unit := wrapUnit T "power" dt a.unit (a.unit.powInt k), name := "" }
 
 /-- first-axis indexing of values: rows, new shape, data -/
 def takeRows (shape : List Nat) (data : List Rat) (rows : List Nat) : List Rat :=
